@@ -54,6 +54,10 @@ Ltac break H :=
          | context [match ?x with _ => _ end] => destruct x eqn:?; try discriminate
          end.
 
+Arguments writer_out : simpl never.
+Lemma mu_writer_out fixed c : mu (writer_out fixed c) = mu (writer_exit c).
+Proof. unfold writer_out. destruct fixed; [apply mu_begin_closing|reflexivity]. Qed.
+
 Section Measure.
   Variable cap : nat.
   Variable fixed : bool.
@@ -94,6 +98,7 @@ Section Measure.
       + pose proof (gsum_upd mu_g stop_gor i (gs c) g N) as X. rewrite mu_g_stop in X. lia.
       + rewrite upd_none by exact N. lia.
     - (* IRReturn *) break H. injection H as <-. unfold mu. simpl. rewrite Heqr. simpl. lia.
+    - (* IRCancelled *) break H. injection H as <-. unfold mu. simpl. rewrite Heqr. simpl. lia.
     - (* IGCancel *)
       assert (mu c' + 1 = mu c + 0); [|lia]. eapply on_gor_mu; [exact H| |intros; lia].
       intros g G. apply andb_true_iff in G as [G _]. eapply phase_weight; eauto.
@@ -115,13 +120,13 @@ Section Measure.
       assert (mu c' + 3 = mu c + 0); [|lia]. eapply on_gor_mu; [exact H| |intros; lia].
       intros g G. eapply phase_weight; eauto.
     - (* IWTakeOk *) break H. injection H as <-. unfold mu. simpl. rewrite Heqn. lia.
-    - (* IWTakeFail *) break H. injection H as <-. unfold mu. simpl. rewrite Heqw, Heqn. simpl. lia.
+    - (* IWTakeFail *) break H. injection H as <-. rewrite mu_writer_out. unfold mu. simpl. rewrite Heqw, Heqn. simpl. lia.
     - (* IWCloseMsg *) break H. injection H as <-. unfold mu. simpl. rewrite Heqw. simpl. lia.
-    - (* IWCloseRecv *) break H. injection H as <-. unfold mu. simpl. rewrite Heqw. simpl. lia.
+    - (* IWCloseRecv *) break H. injection H as <-. rewrite mu_writer_out. unfold mu. simpl. rewrite Heqw. simpl. lia.
     - (* IWDrainOk *) break H. injection H as <-. unfold mu. simpl. rewrite Heqn. lia.
     - (* IWDrainFail *) break H. injection H as <-. unfold mu. simpl. rewrite Heqw, Heqn. simpl. lia.
     - (* IWDrainDone *) break H. injection H as <-. unfold mu. simpl. rewrite Heqw. simpl. lia.
-    - (* IWWaitDone *) break H. injection H as <-. unfold mu. simpl. rewrite Heqw. simpl. lia.
+    - (* IWWaitDone *) break H. injection H as <-. rewrite mu_writer_out. unfold mu. simpl. rewrite Heqw. simpl. lia.
     - (* IWFinish *) break H. injection H as <-.
       pose proof (mu_finish_once c) as X. unfold mu in *. simpl.
       assert (W : wr (finish_once c) = wr c) by (unfold finish_once; destruct (finished c); reflexivity).
@@ -170,6 +175,10 @@ Proof. intros [J1 J2 J3 J4 J5 J6]. now apply inv_begin_closing_strong. Qed.
 Lemma inv_writer_exit c : AInv c -> wr c <> WDone -> AInv (writer_exit c).
 Proof.
   intros [J1 J2 J3 J4 J5 J6] N. constructor; simpl; auto; discriminate.
+Qed.
+Lemma inv_writer_out fixed c : AInv c -> wr c <> WDone -> AInv (writer_out fixed c).
+Proof.
+  intros J N. unfold writer_out. destruct fixed; [apply inv_begin_closing|]; now apply inv_writer_exit.
 Qed.
 Lemma inv_finish_once c : AInv c -> rd c = RDone -> AInv (finish_once c) /\ finished (finish_once c) = true.
 Proof.
@@ -227,7 +236,7 @@ Section Invariants.
     - (* EDrop *) break H. injection H as <-. destruct J as [J1 J2 J3 J4 J5 J6]. constructor; simpl; auto.
     - (* EAppClose *) break H. injection H as <-. apply inv_begin_closing in J. destruct J as [J1 J2 J3 J4 J5 J6].
       constructor; simpl; auto. intro F. destruct (J5 F) as (A & B & C). auto.
-    - (* ETickFail *) break H. injection H as <-. apply inv_writer_exit; [exact J|congruence].
+    - (* ETickFail *) break H. injection H as <-. apply inv_writer_out; [exact J|congruence].
     - (* IReadFail *) break H. injection H as <-. destruct J as [J1 J2 J3 J4 J5 J6].
       apply inv_begin_closing_strong; simpl; auto.
       + intro W. destruct (J4 W) as [R _]. congruence.
@@ -247,6 +256,7 @@ Section Invariants.
       + intro F. destruct (J5 F) as [R _]. congruence.
       + apply upd_Forall; [exact J6|]. intros g G. now apply gor_ok_stop.
     - (* IRReturn *) break H. injection H as <-. apply inv_with_rd; congruence.
+    - (* IRCancelled *) break H. injection H as <-. apply inv_with_rd; congruence.
     - (* IGCancel *) destruct (on_gor_shape _ _ _ _ _ _ H) as (g & _ & _ & ->).
       rewrite <- (with_queue_same (with_gs _ c)). simpl. apply inv_upd; [intros; now apply gor_ok_phase|intros; reflexivity|exact J].
     - (* IGEnd *) destruct (on_gor_shape _ _ _ _ _ _ H) as (g & _ & _ & ->).
@@ -262,15 +272,15 @@ Section Invariants.
       destruct (on_gor_shape _ _ _ _ _ _ H) as (g & _ & _ & ->).
       rewrite <- (with_queue_same (with_gs _ c)). simpl. apply inv_upd; [intros; now apply gor_ok_phase|intros; reflexivity|exact J].
     - (* IWTakeOk *) break H. injection H as <-. now apply inv_with_queue.
-    - (* IWTakeFail *) break H. injection H as <-. apply inv_writer_exit; [now apply inv_with_queue|simpl; congruence].
+    - (* IWTakeFail *) break H. injection H as <-. apply inv_writer_out; [now apply inv_with_queue|simpl; congruence].
     - (* IWCloseMsg *) break H. injection H as <-. destruct J as [J1 J2 J3 J4 J5 J6]. constructor; simpl; auto; try discriminate.
-    - (* IWCloseRecv *) break H. injection H as <-. apply inv_writer_exit; [exact J|congruence].
+    - (* IWCloseRecv *) break H. injection H as <-. apply inv_writer_out; [exact J|congruence].
     - (* IWDrainOk *) break H. injection H as <-. now apply inv_with_queue.
     - (* IWDrainFail *) break H. injection H as <-. apply inv_with_queue with (q := n) in J.
       destruct J as [J1 J2 J3 J4 J5 J6]. constructor; simpl in *; auto; try discriminate.
     - (* IWDrainDone *) break H. injection H as <-.
       destruct J as [J1 J2 J3 J4 J5 J6]. constructor; simpl in *; auto; try discriminate.
-    - (* IWWaitDone *) break H. injection H as <-. apply inv_writer_exit; [exact J|congruence].
+    - (* IWWaitDone *) break H. injection H as <-. apply inv_writer_out; [exact J|congruence].
     - (* IWFinish *) break H. injection H as <-.
       assert (R : rd c = RDone) by (unfold reader_done in Heqb; destruct (rd c); try discriminate; reflexivity).
       destruct (inv_finish_once c J R) as [[J1 J2 J3 J4 J5 J6] F]. constructor; simpl; auto; try discriminate.
@@ -321,11 +331,14 @@ Section Progress.
   Qed.
 
   Theorem progress c :
-    AInv c -> ending c = true ->
+    AInv c -> settling c = true ->
     (forall l, internal l = true -> astep cap true c l = None) ->
     all_gone c = true /\ cleaned c.
   Proof.
-    intros [J1 J2 J3 J4 J5 J6] E H.
+    intros [J1 J2 J3 J4 J5 J6] St H.
+    assert (E : ending c = true).
+    { unfold settling in St. apply orb_true_iff in St as [St|St]; [unfold ending; now rewrite St|].
+      now apply andb_true_iff in St as [St _]. }
     assert (Wmove : wr c = WDrain \/ wr c = WWait -> False).
     { intros [W|W].
       - destruct (queue c) eqn:Q.
@@ -362,6 +375,10 @@ Section Progress.
         * specialize (H IRBegin eq_refl). simpl in H. rewrite R in H. discriminate.
         * specialize (H IRSpawn eq_refl). simpl in H. rewrite R in H. discriminate.
         * specialize (H IRStop eq_refl). simpl in H. rewrite R in H. discriminate.
+        * (* waiting for the cancellation: it has happened, or the configuration would not be settling *)
+          specialize (H IRCancelled eq_refl). simpl in H. rewrite R in H.
+          unfold settling, waits in St. rewrite R in St. simpl in St. rewrite andb_false_r, orb_false_r in St.
+          rewrite St in H. discriminate.
     - (* read loop done *)
       pose proof (J3 eq_refl) as Cl.
       destruct (wr c) eqn:W; try (exfalso; apply Wmove; auto; fail); try (exfalso; now apply Wloop).
@@ -408,6 +425,15 @@ Section Quiescence.
     dropped (finish_once c) = dropped c /\ conn_closed (finish_once c) = conn_closed c.
   Proof. unfold finish_once. destruct (finished c); simpl; auto. Qed.
 
+  Lemma writer_out_flags c :
+    (closing c = true -> closing (writer_out fixed c) = true) /\ pending_close (writer_out fixed c) = pending_close c /\
+    dropped (writer_out fixed c) = dropped c /\ conn_closed (writer_out fixed c) = true /\
+    closing (writer_out fixed c) = (fixed || closing c).
+  Proof.
+    unfold writer_out. destruct fixed; [|simpl; auto].
+    destruct (begin_closing_flags (writer_exit c)) as (A & B & C & D). rewrite A, B, C, D. simpl. auto.
+  Qed.
+
   Lemma ending_step c l c' : astep cap fixed c l = Some c' -> ending c = true -> ending c' = true.
   Proof.
     intros H E.
@@ -420,11 +446,62 @@ Section Quiescence.
         break H; injection H as <-; simpl; auto;
         try (destruct (begin_closing_flags c) as (A & B & C & D); rewrite ?A, ?B, ?C, ?D; auto; fail);
         try (destruct (finish_once_flags c) as (A & B & C & D); rewrite ?A, ?B, ?C, ?D; auto; fail).
+      all: try (match goal with |- context [writer_out fixed ?x] =>
+                  destruct (writer_out_flags x) as (A & B & C & D & _); rewrite ?B, ?C, ?D; simpl; auto end; fail).
       match goal with |- context [begin_closing ?x] => destruct (begin_closing_flags x) as (A & B & C & D); rewrite ?A, ?B, ?C, ?D; simpl; auto end. }
     destruct M as (M1 & M2 & M3 & M4). unfold ending in *.
     apply orb_true_iff in E as [E|E]; [|rewrite (M4 E); now rewrite !orb_true_r].
     apply orb_true_iff in E as [E|E]; [|rewrite (M3 E); now rewrite !orb_true_r].
     apply orb_true_iff in E as [E|E]; [rewrite (M1 E); reflexivity|rewrite (M2 E); now rewrite !orb_true_r].
+  Qed.
+
+  Lemma closing_step c l c' : astep cap fixed c l = Some c' -> closing c = true -> closing c' = true.
+  Proof.
+    intros H E.
+    destruct l; simpl in H;
+      try (destruct (on_gor_shape _ _ _ _ _ _ H) as (g & _ & _ & ->); simpl; auto; fail);
+      try (destruct (can_enqueue cap c); [|discriminate]; destruct (on_gor_shape _ _ _ _ _ _ H) as (g & _ & _ & ->); simpl; auto; fail);
+      try (destruct (can_give_up fixed c); [|discriminate]; destruct (on_gor_shape _ _ _ _ _ _ H) as (g & _ & _ & ->); simpl; auto; fail);
+      break H; injection H as <-; simpl; auto;
+      try (destruct (begin_closing_flags c) as (A & B & C & D); rewrite ?A, ?B, ?C, ?D; auto; fail);
+      try (destruct (finish_once_flags c) as (A & B & C & D); rewrite ?A, ?B, ?C, ?D; auto; fail).
+    all: try (match goal with |- context [writer_out fixed ?x] =>
+                destruct (writer_out_flags x) as (A & B & C & D & _); apply A; simpl; auto end; fail).
+    match goal with |- context [begin_closing ?x] => destruct (begin_closing_flags x) as (A & B & C & D); rewrite ?A; simpl; auto end.
+  Qed.
+
+  Lemma rd_finish_once c : rd (finish_once c) = rd c.
+  Proof. unfold finish_once. destruct (finished c); reflexivity. Qed.
+  Lemma rd_writer_out c : rd (writer_out fixed c) = rd c.
+  Proof. unfold writer_out. destruct fixed; [rewrite rd_begin_closing|]; reflexivity. Qed.
+
+  (** an internal step never puts the read loop (back) into a call that waits for a cancellation *)
+  Lemma waits_step c l c' : astep cap fixed c l = Some c' -> internal l = true -> waits c' = true -> waits c = true.
+  Proof.
+    intros H I. unfold waits.
+    destruct l; try discriminate I; simpl in H;
+      try (destruct (on_gor_shape _ _ _ _ _ _ H) as (g & _ & _ & ->); simpl; auto; fail);
+      try (destruct (can_enqueue cap c); [|discriminate]; destruct (on_gor_shape _ _ _ _ _ _ H) as (g & _ & _ & ->); simpl; auto; fail);
+      try (destruct (can_give_up fixed c); [|discriminate]; destruct (on_gor_shape _ _ _ _ _ _ H) as (g & _ & _ & ->); simpl; auto; fail);
+      break H; injection H as <-; simpl; rewrite ?rd_begin_closing, ?rd_finish_once, ?rd_writer_out; simpl;
+      rewrite ?Heqr; simpl; auto; try discriminate; intro X; rewrite ?X, ?orb_true_r; auto.
+  Qed.
+
+  Lemma settling_step c l c' :
+    astep cap fixed c l = Some c' -> internal l = true -> settling c = true -> settling c' = true.
+  Proof.
+    intros H I S. unfold settling in *. apply orb_true_iff in S as [S|S].
+    - rewrite (closing_step _ _ _ H S). reflexivity.
+    - apply andb_true_iff in S as [E W]. rewrite (ending_step _ _ _ H E). simpl.
+      destruct (waits c') eqn:W'; [|now rewrite orb_true_r].
+      rewrite (waits_step _ _ _ H I W') in W. discriminate.
+  Qed.
+  Lemma settling_run ls : forall c c', Forall (fun l => internal l = true) ls ->
+    arun cap fixed c ls = Some c' -> settling c = true -> settling c' = true.
+  Proof.
+    induction ls as [|l ls IH]; intros c c' F H E; simpl in H; [now injection H as <-|].
+    inversion F as [|? ? Il Fl]; subst.
+    destruct (astep cap fixed c l) as [c1|] eqn:S; [|discriminate]. eapply IH; [exact Fl|exact H|]. eapply settling_step; eauto.
   Qed.
 
   Lemma ending_run ls : forall c c', arun cap fixed c ls = Some c' -> ending c = true -> ending c' = true.
@@ -448,14 +525,14 @@ End Quiescence.
     extended has reached the configuration in which every actor has terminated, HandleClose has
     run, the connection is deregistered and every stream was stopped exactly once *)
 Theorem quiescent cap (cap_pos : 1 <= cap) c :
-  reachable cap true c -> ending c = true ->
+  reachable cap true c -> settling c = true ->
   forall ls c', Forall (fun l => internal l = true) ls -> arun cap true c ls = Some c' ->
     List.length ls <= mu c /\
     ((forall l, internal l = true -> astep cap true c' l = None) -> all_gone c' = true /\ cleaned c').
 Proof.
   intros R E ls c' F H. split.
   - pose proof (internal_runs_bounded cap true ls c c' F H). lia.
-  - intro Stuck. apply (progress cap cap_pos); [|eapply ending_run; eauto|exact Stuck].
+  - intro Stuck. apply (progress cap cap_pos); [|eapply settling_run; eauto|exact Stuck].
     apply (reachable_inv cap true). eapply reachable_arun; eauto.
 Qed.
 
@@ -541,7 +618,7 @@ Section Exists.
 End Exists.
 
 Theorem quiescent_run_exists cap (cap_pos : 1 <= cap) : forall n c,
-  mu c <= n -> reachable cap true c -> ending c = true ->
+  mu c <= n -> reachable cap true c -> settling c = true ->
   exists ls c', Forall (fun l => internal l = true) ls /\ arun cap true c ls = Some c' /\
                 all_gone c' = true /\ cleaned c'.
 Proof.
@@ -556,6 +633,46 @@ Proof.
     + destruct (not_stuck _ _ _ S) as (l & c1 & I & A). pose proof (internal_step_decreases _ _ _ _ _ A I) as D.
       destruct (IH c1) as (ls & c' & F & Ru & G & Cl); [lia| | |].
       * apply (reachable_arun cap true c [l] c1 R). simpl. now rewrite A.
-      * eapply ending_step; eauto.
+      * eapply settling_step; eauto.
       * exists (l :: ls), c'. split; [constructor; auto|]. split; [simpl; now rewrite A|auto].
 Qed.
+
+(** ** handler calls that return only upon cancellation
+    [beginClosing] cancels the handler's context ([IRCancelled] needs [closing]).  Once closing has begun —
+    by the read loop, by the application's Close(), or by the write loop on its way out — every run of
+    internal steps is bounded and ends with everybody terminated and everything cleaned up, although
+    the read loop may be inside a callback that returns only when its context is cancelled. *)
+Theorem close_completes_upon_cancellation cap (cap_pos : 1 <= cap) c :
+  reachable cap true c -> closing c = true ->
+  forall ls c', Forall (fun l => internal l = true) ls -> arun cap true c ls = Some c' ->
+    List.length ls <= mu c /\
+    ((forall l, internal l = true -> astep cap true c' l = None) -> all_gone c' = true /\ cleaned c').
+Proof. intros R Cl. apply quiescent; auto. unfold settling. now rewrite Cl. Qed.
+
+(** a failing write (the client has gone while the read loop waits in such a callback) makes the write loop
+    exit, and that begins closing: the configuration is settling from then on *)
+Theorem write_failure_begins_closing cap c l c' :
+  astep cap true c l = Some c' -> (l = ETickFail \/ l = IWTakeFail) -> closing c' = true.
+Proof.
+  intros H [-> | ->]; simpl in H.
+  - destruct (wr c); try discriminate. injection H as <-. unfold writer_out. apply begin_closing_flags.
+  - destruct (wr c); try discriminate. destruct (queue c); try discriminate. injection H as <-. unfold writer_out. apply begin_closing_flags.
+Qed.
+
+(** before that repair: the client drops while the read loop is in a callback that waits for its
+    cancellation, the write loop fails its next write and exits without anybody having begun closing:
+    nobody can move, the read loop has not ended, HandleClose has not run *)
+Definition stuck_waiting_run : list alabel := [EFrame [RWaitCancel; RSend; RSend]; EDrop; ETickFail; IWFinish].
+Theorem quiescent_refuted_before_fix_cancel :
+  exists c, arun 100 false init_cfg (firstn 3 stuck_waiting_run) = Some c /\ ending c = true /\
+            (forall l, internal l = true -> astep 100 false c l = None) /\
+            all_gone c = false /\ finished c = false /\ registered c = true.
+Proof.
+  eexists. split; [vm_compute; reflexivity|]. split; [reflexivity|]. split; [|auto].
+  intros l I. destruct l; try discriminate; try reflexivity; destruct i; reflexivity.
+Qed.
+(** with the repair the same history goes on: the cancellation arrives, the callback returns *)
+Example same_run_after_fix :
+  exists c, arun 100 true init_cfg (firstn 3 stuck_waiting_run) = Some c /\ settling c = true /\
+            exists c', astep 100 true c IRCancelled = Some c'.
+Proof. eexists. split; [vm_compute; reflexivity|]. split; [reflexivity|]. eexists. vm_compute. reflexivity. Qed.
